@@ -3,7 +3,9 @@
 1. TLC, exhaustive:
    * tla/pp/CondIncl.tla — chibicc's cond_incl list + skip scanners + skip_line (Level I)
      select the same text and leave the same macro table as the 6.10.1 group stack
-     (Level A) for every directive sequence of any length with nesting <= MaxDepth.
+     (Level A) for every directive sequence of any length with nesting <= MaxDepth; the
+     directives that take no part in the selection (#line, #pragma, the null directive, and
+     #error in skipped groups) are lines of the alphabet too and change nothing in any state.
    * tla/pp/Include.tla — the include machinery with chibicc's shortcuts (file-name cache,
      #include_next index, include-guard memo, #pragma once table) produces the same token
      stream as plain textual inclusion by search order, for every scenario of a closed
@@ -192,6 +194,8 @@ def finish_traces(ctx, tree, pool, ctl):
 
 # ------------------------------------------------------- 1. conditional part
 COND_TXT = {"0": "0", "1": "1", "X": "X", "DX": "defined(X)", "NDX": "!defined X"}
+# the directives that take no part in the selection (CondIncl.tla: Neutral); #error only occurs in skipped groups
+NEUTRAL = {"line": "#line 7000", "pragma": "#pragma c10 neutral", "null": "#", "error": "#error not reached"}
 
 
 def cond_line(l, pos):
@@ -205,6 +209,8 @@ def cond_line(l, pos):
         return "#%s%s" % (k, junk)
     if k == "def":
         return "#define X %s" % a
+    if k in NEUTRAL:
+        return NEUTRAL[k]
     return "T%d" % pos
 
 
@@ -292,7 +298,18 @@ def replay_cond(ctx, tree, cases, batch=150):
                 continue
             text = "\n".join(cond_case_text(c["lines"], c["depth"])) + "\n"
             if rc != 0:
-                sig, what = "cond:rejected", "chibicc -E rc=%s: %s" % (rc, err)
+                # root-cause class: the neutral directive kinds met while a conditional is open + the diagnostic
+                depth, inside = 0, set()
+                for l in c["lines"]:
+                    if l["k"] in ("if", "ifdef", "ifndef"):
+                        depth += 1
+                    elif l["k"] == "endif":
+                        depth -= 1
+                    elif l["k"] in NEUTRAL and depth > 0:
+                        inside.add(l["k"])
+                msgs = re.findall(r"\^ (.*)", err)          # the last one is the error (warnings such as "extra token" precede it)
+                sig = "cond:rejected:%s:%s" % ("+".join(sorted(inside)) + "-in-group" if inside else "", (msgs[-1] if msgs else "no message").strip()[:60])
+                what = "chibicc -E rc=%s: %s" % (rc, err)
             else:
                 sig, what = cond_sig(c, got), "expected %s got %s" % (c["exp"], got)
             # tie-break: is the specification right about this input?  (not repeated once a class is settled)
@@ -313,10 +330,12 @@ def submit_cond(ctx, pool):
     out = os.path.join(ctx.scratch, "cond.ndjson")
     c1 = ctx.cfg("pp", "CondIncl_mc.cfg", MaxDepth=3 if q else 5)
     c2 = ctx.cfg("pp", "CondIncl_mc.cfg", MaxDepth=2, FixSkipLine=False)
+    c4 = ctx.cfg("pp", "CondIncl_mc.cfg", MaxDepth=2, FixLineInGroup=False)
     c3 = ctx.cfg("pp", "CondIncl_gen.cfg", MaxDepth=3)      # depth 3 is needed to reach the scanner inside the scanner (skip_cond_incl2 recursion)
     return dict(out=out,
                 mc=pool.submit(ctx.tlc_expect_ok, "pp", "CondIncl", c1, "cond_incl/skip scanner design does not refine 6.10.1", workers=2),
                 ctl=pool.submit(ctx.tlc, "pp", "CondIncl", c2, workers=1, count=False),
+                ctl2=pool.submit(ctx.tlc, "pp", "CondIncl", c4, workers=1, count=False),
                 gen=pool.submit(ctx.tlc, "pp", "CondIncl", c3, env=dict(OUT=out), workers=3))
 
 
@@ -336,6 +355,8 @@ def finish_cond(ctx, tree, job):
     job["mc"].result()
     if job["ctl"].result().ok:
         raise Infra("sensitivity control failed: TLC accepts the inverted skip_line")
+    if job["ctl2"].result().ok:
+        raise Infra("sensitivity control failed: TLC accepts a read_line_marker that rejects #line inside an open conditional")
     return dict(cond_transitions=len(beh), cond_cases_replayed=len(cases))
 
 
